@@ -139,6 +139,11 @@ func (ye *YouTubeExtractor) getDataFromSrcURL(srcURL string) (string, map[string
 		}
 	}
 
+	// The address of a watch page has the video ID in its query
+	if strings.TrimSuffix(parsedURL.Path, "/") == "/watch" {
+		videoID = strings.TrimSpace(parsedURL.Query().Get("v"))
+	}
+
 	// Get parameters from URL. In case of queries that specified several times,
 	// only use the last value.
 	params := make(map[string]string)
